@@ -59,7 +59,11 @@ def vary_index(df, k):
     DataFrame whose labels are not 0..N-1 (k % 4: 0, 1 default; 2 permuted labels; 3 gapped, unsorted labels)."""
     n = len(df)
     mode = k % 4
-    if n == 0 or mode < 2:
+    if n == 0:
+        return df
+    if (k // 4) % 2 == 1:
+        df = int_ids(df)
+    if mode < 2:
         return df
     out = df.copy()
     if mode == 2:
@@ -71,4 +75,19 @@ def vary_index(df, k):
         if len(set(labels)) != n:
             labels = [100 + 3 * i for i in range(n)]
     out.index = labels
+    return out
+
+
+ID_COLUMNS = ["subtomo_id", "tomo_id", "object_id", "class", "geom2", "geom5"]
+
+
+def int_ids(df):
+    """The same table with its identifier columns stored as int64 (lists built from integer data, as the
+    repository's own test fixtures are) - only where every value is a finite integer."""
+    out = df.copy()
+    for c in ID_COLUMNS:
+        if c in out.columns:
+            v = out[c].to_numpy()
+            if v.dtype.kind == "f" and np.all(np.isfinite(v)) and np.all(v == np.rint(v)):
+                out[c] = v.astype("int64")
     return out
